@@ -39,6 +39,7 @@ def candidates(rng, n):
                 E2["id"], E2["name"], E2["perr"], E2["phf"] = did, "E%d" % did, perr, phf
                 # the error type / function may be written relative to the enum itself
                 E2["perr_form"] = (did % 5) if perr else 0
+                E2["via_macro"] = E2["perr_form"] == 0 and did % 2 == 1
                 cands.append(E2)
                 did += 1
     return cands
